@@ -1,4 +1,5 @@
 """C09  Snapshot and restore do not depend on thread or I/O scheduling."""
+import os
 from pathlib import Path
 
 from sim import gen, harness, install, store, world
@@ -20,7 +21,7 @@ COMPONENTS = {
 ASSUMPTIONS = ['pre-emption granularity: replicat source lines and synchronisation primitives',
                'source files do not change during the snapshot']
 PROBES = ['target_write_failed', 'queue_full', 'producer_put_timed_out', 'worker_polled_empty', 'exists_true', 'restore_lock_contended',
-          'stalled_call', 'fail_injected']
+          'stalled_call', 'fail_injected', 'snapshot_failed_then_restore']
 SHRINK_SEEDS = 16     # a race needs luck again after the workload changed
 TIERS = {'quick': {'budget_s': 75, 'batch': 20}, 'thorough': {'budget_s': 900, 'batch': 40}}
 
@@ -51,6 +52,8 @@ def gen_case(seed, tier):
     return {
         'seed': seed,
         'sched_seed': seed,
+        # a failing snapshot immediately followed by a restore through the same Repository object
+        'followup': bool(fail) and fail['phase'] == 'snapshot' and substream(seed, 'c09-followup').random() < 0.6,
         'settings': settings,
         'tree': tree,
         'N': rng.choice([1, 1, 2, 2, 3, 4, 6]),
@@ -70,7 +73,84 @@ def _tree_of(target, files):
     return {k: v for k, v in got.items()}
 
 
+def run_followup(case):
+    """snapshot #1 succeeds; snapshot #2 (one more file) loses one backend call for good while other calls are in
+    flight; the program catches the error and at once restores snapshot #1 through the same Repository object.
+    Slots are a promise about transfers outstanding at ANY time, whichever command started them."""
+    from pathlib import Path
+    viol, probes = [], {'restore_right_after_failed_snapshot': 1}
+    W = harness.World(case['sched_seed'], 'c09f', flavour=case['flavour'], lat_kind=case['lat_kind'], lat=case['lat'], list_order=case['list_order'])
+    try:
+        src = W.dir / 'src'
+        gen.materialize(src, case['tree'])
+        N = case['N']
+        enc = case['settings'].get('encryption') is not None
+        client = world.Client('u', password=b'correct horse' if enc else None, concurrent=N)
+        seq = world.SchedOpts.sequential()
+        zero = lambda: W.profile(lat_kind='zero', list_order='sorted')     # noqa
+        r0 = W.init(client, case['settings'], seq, profile=zero())
+        s1 = W.snapshot(client, [src], seq, profile=zero())
+        if not r0.ok or not s1.ok:
+            raise RuntimeError(f'set-up failed in harness: {r0.outcome()} {s1.outcome()} {s1.exc!r}')
+        want = gen.read_tree(src)
+        rng = substream(case['sched_seed'], 'followup')
+        extra = src / 'added-later.bin'
+        extra.write_bytes(rng.randbytes(40 * case['settings']['chunking']['max_length'] + 3))
+        os.utime(extra, ns=(10**18, 10**18))
+        fail = case['fail']
+        out_dir = W.dir / 'out'
+
+        async def both(repo):
+            got = {}
+            try:
+                await repo.snapshot(paths=[Path(src)])
+                got['snapshot'] = 'ok'
+            except store.SimBackendError:
+                got['snapshot'] = 'failed'
+                # at this very instant: a slot is either in the pool or stands for a call still outstanding
+                got['free'], got['outstanding'] = repo._slots.qsize(), repo.backend.inflight_slot
+            r = await repo.restore(path=Path(out_dir), snapshot_regex='^' + s1.value['name'] + '$')
+            got['files'] = r.files
+            return got
+        prof = W.profile(fail_call=fail['call'], fail_mode=fail['mode'], lat_cap=60.0)
+        r = W.run(client, both, world.SchedOpts.from_dict(case['opts']), profile=prof)
+        b = r.backend
+        if r.hang is not None:
+            viol.append({'cls': 'hang', 'sig': {'phase': 'snapshot+restore'}, 'msg': f'failed snapshot followed by restore did not terminate: {r.hang}'})
+            return _result(W, viol, probes, case)
+        if r.max_inflight is not None and r.max_inflight > N:
+            viol.append({'cls': 'inflight-exceeds', 'sig': {'phase': 'restore-after-failed-snapshot'},
+                         'msg': f'{r.max_inflight} slot-limited backend calls outstanding at once with concurrency {N} (a restore started right after a snapshot failed, same Repository object)'})
+        if r.repo is not None and r.repo._slots.qsize() != N and not viol:
+            viol.append({'cls': 'slots-leaked', 'sig': {'phase': 'restore-after-failed-snapshot', 'failed': bool(r.exc)},
+                         'msg': f'{r.repo._slots.qsize()} of {N} slots available after the process quiesced'})
+        injected = b is not None and b.failed_call_desc is not None
+        if injected:
+            probes['fail_injected'] = 1
+        if r.exc is not None:
+            if not (injected and isinstance(r.exc, store.SimBackendError)):
+                viol.append({'cls': 'spurious-error', 'sig': {'phase': 'restore-after-failed-snapshot', 'exc': type(r.exc).__name__},
+                             'msg': f'snapshot (one call failing) then restore raised {r.exc!r}'})
+        elif not viol:
+            got = r.value
+            if got.get('snapshot') == 'failed':
+                probes['snapshot_failed_then_restore'] = 1
+                if got['free'] + got['outstanding'] > N:
+                    viol.append({'cls': 'slots-free-while-calls-outstanding', 'sig': {},
+                                 'msg': f'when snapshot raised: {got["free"]} slots free and {got["outstanding"]} slot-limited calls still outstanding, concurrency {N}'})
+            tree = gen.read_tree(out_dir)
+            wantr = {str(harness.restored_path(out_dir, src / k).relative_to(out_dir)): v for k, v in want.items()}
+            if tree != wantr and not viol:
+                viol.append({'cls': 'tree-differs', 'sig': {'phase': 'restore-after-failed-snapshot'},
+                             'msg': 'restore right after a failed snapshot does not reproduce the first snapshot: ' + _tree_diff(tree, wantr)})
+        return _result(W, viol, probes, case)
+    finally:
+        W.close()
+
+
 def run_case(case):
+    if case.get('followup'):
+        return run_followup(case)
     viol = []
     probes = {}
     W = harness.World(case['sched_seed'], 'c09', flavour=case['flavour'], lat_kind=case['lat_kind'],
